@@ -117,7 +117,10 @@ def rgfa_documents(ctx):
     docs = [('gfa1', s1 + ['L\ts1\t+\ts2\t+\t0M\tSR:i:0'], {}), ('gfa1', s1, {'version': 'gfa1'}),
             ('VersionError', s2, {}), ('VersionError', ['H\tVN:Z:2.0'] + s1, {}), ('VersionError', s1 + ['E\te\ts1+\ts2+\t0\t1\t0\t1\t*'], {}),
             ('VersionError', s1, {'version': 'gfa2'}), ('VersionError', s1 + ['G\tg\ts1+\ts2-\t5\t*'], {}),
-            ('VersionError', s1 + ['U\tu\ts1 s2'], {})]
+            ('VersionError', s1 + ['U\tu\ts1 s2'], {}),
+            # a GFA2 document that also contains what rGFA forbids for other reasons (header lines): the version decides
+            ('VersionError', ['H\tVN:Z:2.0'] + s2, {}), ('VersionError', ['H\txx:Z:a'] + s2, {}),
+            ('VersionError', ['H\tVN:Z:2.0'] + s2, {'version': 'gfa2'}), ('VersionError', ['H\tab:i:1', 'H\tcd:i:2'] + s2[:1], {})]
     for want, doc, kw in docs:
         for order in itertools.permutations(doc):
             r = impl.outcome(lambda: g.Gfa(list(order), dialect='rgfa', **kw).version)
